@@ -29,6 +29,16 @@ CONFIG = dict(
              'the Gallina analysis model is stepped on every case without a rename (Burndown/PathDel.v run_hist_pd) and must agree with the implementation. '
              'A PROPFAIL of such a case carries the marker [path-deleted-on-a-branch] exactly when the EXECUTED plan replays, in merge mode, the deletion of a path whose flag deletions[name] is not set at that moment '
              '(known finding F22; the driver simulates the flag along the plan) - any other failure of a pathdel case is reported without the marker. '
+             'Round-4 streams (content of values): every DAG case draws how its line identities and path names are WRITTEN - (enc 1..5), a third of the cases: lines that are not well-formed UTF-8 and differ only inside the ill-formed runs '
+             '(lone continuation / lead bytes, 0xC0 0xC1 0xF5 0xF8 0xFE 0xFF, Latin-1 letters, U+FFFD as real content), lines that differ only in case, only in leading / inner / trailing blanks (space, tab, CR, VT, NBSP, U+3000, U+2028, BOM), '
+             'decimal numbers in the spellings 7 / 007 / +7 across the widths 9-10-11, 99-100-101, lines of blanks only (blobs of white space or of a BOM); the *-pathdel kinds keep L<id> (similar blobs would be paired by RenameAnalysis); '
+             '(nenc 1..4), a third: path names that differ only in case, only in blanks / dots / BOM / combining characters, names that are not UTF-8, common prefixes with decimal suffixes f9 f10 f11 f99 f100 f101 ..; '
+             '(modes 1), a quarter: regular / executable entries alternating, also with the blob unchanged; the observation is mapped back to the plain names, the judgement is that of the plain twin. '
+             'shape-renchain-pathdel (60 quick / 1 000 thorough): a chain of two or three renames of one file on a branch, in four of five cases a NEW file on a name the chain gave up, a second (and third) branch that forked at the root, inside the chain or after it '
+             'and still has the file under an older name, tail edits of both files, hibernation / tracking / G / S drawn as everywhere; dagren-pathdel also creates files on names given up by renames. '
+             'Files that are only renamed and new files on names given up by a rename are judged under their name at HEAD (per-file matrix, ownership) when the history satisfies three structural conditions computed by the driver '
+             '(D4: no concurrent commit has another file under a name at the moment a file takes it). Known findings F27 / F28: a PROPFAIL about a file that is renamed back to an earlier name starts with [renamed-back-to-earlier-name], one about a renamed file '
+             'for which a commit concurrent with the rename (or a parent of it) does not have the file yet starts with [rename-consumed-before-merge-replay]; every other failure is untagged. '
              'Large cases (field scale) are judged by the ground truth computed natively by the driver (difference arrays; the same definitions as Lifetimes.v / Linear.v), '
              'which every small case of the run checks against the extracted oracle; the analysis model is stepped on the opt family but not on the 10^3-commit cases. '
              'Non-trivial = at least 3 commits and (conflict-free kinds) at least one killed line; distinct = distinct '
@@ -61,6 +71,8 @@ CONFIG = dict(
             'linear row-sum law are evaluated by native OCaml code on arrays in the driver (the extracted oracle is cubic); on every small case both are computed and a difference is reported as a driver failure',
             'kinds *-pathdel: the domain conditions D1-D3 (harness/cmd/c01/pathdel.go) are checked natively by the driver (npd_ok) and, for histories without renames, by the extracted conflict_free_pd; '
             'the marker of F22 is decided by a native simulation of the deletions flag along the executed plan (nflag_unset_hit); renames are not in the Gallina model: rename cases are judged by the ground truth only',
+            'round 4: the renderings of line identities and path names (harness/cmd/c01/content.go) are injective by construction (fixed-width / prefix-free digit alphabets) and the harness maps reported names back through the table of the case; '
+            'which renamed files are judged is decided by native driver code (judged_name: takes_ok; ftag: renames_seen_by_all, repeated name = the tags of F27 / F28) on the declarative history',
             'linear scale histories: the tick of a commit is computed by the harness as the running maximum of the day offset from the first commit (the formula of TicksSinceStart; property C19)',
         ],
         level_text='Proved in Coq (all closed under the global context): C01_dense (groupSparseHistory: every cell of the dense matrix = sum of '
